@@ -178,7 +178,12 @@ def run_yaml(base, tag, y, argv_extra=(), api=False, only=None):
 F1 = "void f1(int a)"
 F2 = "double f2(double *x +intent(in)+rank(1), int n)"
 F3 = "void f3(const std::string & s)"
+F4 = "int *g4()"                                            # pointer to a scalar: return_scalar_pointer, F_return_fortran_pointer
+F5A, F5B = "void f5(int a)", "void f5(double a)"            # an overload set: F_create_generic
+F6 = "int f6(const int *v +dimension(..), int n)"          # assumed rank: F_assumed_rank_max
+F7 = "const char *g7()"                                    # character result: F_create_bufferify_function
 FDECLS = [F1, F2, F3]
+FDECLS_WIDE = [F1, F2, F3, F4, F5A, F5B, F6, F7]
 
 
 def decl(d, **kw):
@@ -207,10 +212,19 @@ def pair_list():
                 # wrapper selection is scoped like any option: switched on for a namespace or block = switched on
                 # for each of its members (the library default for both is off)
                 ("options", "wrap_python", True), ("options", "wrap_lua", True)]
-    for (dct, k, v) in settings:
+    # options every function reads through its own scope chain (docs/reference.rst "Options"), with declarations
+    # that are sensitive to them
+    wide = [("options", "return_scalar_pointer", "scalar"), ("options", "F_return_fortran_pointer", False),
+            ("options", "F_create_generic", False), ("options", "F_assumed_rank_max", 2),
+            ("options", "F_create_bufferify_function", False), ("options", "F_standard", 2008),
+            ("options", "C_API_case", "lower"),
+            ("options", "C_name_template", "{C_prefix}x_{C_name_scope}{underscore_name}{function_suffix}{template_suffix}"),
+            ("options", "F_name_impl_template", "{F_name_scope}{underscore_name}{function_suffix}{template_suffix}_impl")]
+    for (dct, k, v) in settings + wide:
         for container in ("block", "namespace", "library"):
-            inner_a = [decl(d) for d in FDECLS]
-            inner_b = [decl(d, **{dct: {k: v}}) for d in FDECLS]
+            ds = FDECLS_WIDE if (dct, k, v) in wide else FDECLS
+            inner_a = [decl(d) for d in ds]
+            inner_b = [decl(d, **{dct: {k: v}}) for d in ds]
             if container == "namespace" and k == "doxygen":
                 continue            # doxygen on a namespace also governs the file header of that namespace's files
             if container == "block":
